@@ -29,9 +29,9 @@ ADDITIVE = {0: "code0", 2: "code2", "4p": "code4p"}
 MULT = {1: "code1", 4: "code4"}
 # triple classes (down, nominal, up): symmetric, asymmetric, inverted, null, large ratio, tiny variation
 TRIPLES_ADD = [(8.0, 10.0, 12.0), (8.0, 10.0, 13.0), (13.0, 10.0, 8.0), (10.0, 10.0, 10.0), (0.5, 10.0, 40.0), (10.0 - 1e-7, 10.0, 10.0 + 3e-7),
-               (9.0, 10.0, 11.5), (2.0, 3.0, 3.5), (7.0, 5.0, 9.0)]
+               (9.0, 10.0, 11.5), (2.0, 3.0, 3.5), (7.0, 5.0, 9.0), (8.0, 10.0, 10.0), (10.0, 10.0, 12.5)]  # last two: one-sided variations
 TRIPLES_MUL = [(0.9, 1.0, 1.1), (0.8, 1.0, 1.3), (1.2, 1.0, 0.7), (1.0, 1.0, 1.0), (0.5, 1.0, 2.5), (1 - 1e-7, 1.0, 1 + 3e-7),
-               (4.5, 5.0, 6.0), (2.7, 3.0, 3.2), (5.5, 5.0, 4.0)]
+               (4.5, 5.0, 6.0), (2.7, 3.0, 3.2), (5.5, 5.0, 4.0), (0.85, 1.0, 1.0), (1.0, 1.0, 1.2)]
 
 
 def alpha_lattice(dtype, a0=1.0):
@@ -65,7 +65,7 @@ def histsets(code, which):
 def plan(tier, seed):
     cases = []
     backends = ["numpy", "numpy32", "pytorch", "pytorch32", "jax", "jax32", "tensorflow", "tensorflow32"]
-    nsets = 3 if tier == "quick" else 9
+    nsets = 4 if tier == "quick" else 11
     for be in backends:
         for code in CODES:
             for a0 in ([1.0, 0.5] if code == 4 else [1.0]):
